@@ -72,7 +72,8 @@ func areaFleet(r *Rng, n int, dir string) (*AreaOut, error) {
 		}
 		var uploads []upl
 		var ops []string
-		written := map[string][]lver{} // fleet key -> versions written anywhere (native)
+		shLast := map[string]map[int]appOp{} // shadow mode: fleet key -> instance -> its last application operation
+		written := map[string][]lver{}       // fleet key -> versions written anywhere (native)
 		writers := map[string]map[int]bool{}
 		tick := func() { clock += 1000; setClock(clock) }
 
@@ -151,7 +152,33 @@ func areaFleet(r *Rng, n int, dir string) (*AreaOut, error) {
 				} else if len(val) == 0 {
 					val = []byte("v3") // empty values in shadow mode: known finding F6, reported under C11
 				}
-				return applyApp(insts[i].env, false, clock, []appOp{{DBI: dbi, Key: key, Val: val, Del: del}})
+				aops := []appOp{{DBI: dbi, Key: key, Val: val, Del: del}}
+				if r.Chance(12) {
+					// the application empties the whole DBI (every key deleted, the DBI itself stays)
+					aops = nil
+					_ = insts[i].env.View(func(txn *lmdb.Txn) error {
+						d, err := txn.OpenDBI(dbi, 0)
+						if err != nil {
+							return nil
+						}
+						ps, _ := dumpDBI(txn, d)
+						for _, p := range ps {
+							aops = append(aops, appOp{DBI: dbi, Key: p.K, Del: true})
+						}
+						return nil
+					})
+					if len(aops) == 0 {
+						aops = []appOp{{DBI: dbi, Key: key, Val: val, Del: del}}
+					}
+				}
+				for _, o := range aops {
+					fk := string(fleetKey(o.DBI, o.Key))
+					if shLast[fk] == nil {
+						shLast[fk] = map[int]appOp{}
+					}
+					shLast[fk][i] = o
+				}
+				return applyApp(insts[i].env, false, clock, aops)
 			}
 			ts := clock
 			cur, has := curLogical(i, dbi, key)
@@ -341,6 +368,40 @@ func areaFleet(r *Rng, n int, dir string) (*AreaOut, error) {
 				if finalApp[i] != finalApp[0] {
 					out.Oracle = append(out.Oracle, OracleFailure{"C01", "identical-app-dbis", fmt.Sprintf("application DBIs of instance 0 and %d differ after quiescence: %s vs %s", i, finalApp[0], finalApp[i]), in})
 					break
+				}
+			}
+			// a key only ONE instance ever wrote ends as that instance's last operation left it (its versions are
+			// the only ones, the newest of them is the winner): present with that value, or absent after a delete
+			appNow := map[string][]byte{}
+			{
+				dump, _, _ := dumpEnv(insts[0].env)
+				for _, d := range dump {
+					if len(d.Name) > len(shadowPrefix) && d.Name[:len(shadowPrefix)] == shadowPrefix {
+						continue
+					}
+					for _, p := range d.Data {
+						appNow[string(fleetKey(d.Name, p.K))] = p.V
+					}
+				}
+			}
+			var sks []string
+			for fk := range shLast {
+				sks = append(sks, fk)
+			}
+			sort.Strings(sks)
+			for _, fk := range sks {
+				if len(shLast[fk]) != 1 {
+					continue
+				}
+				for wi, o := range shLast[fk] {
+					got, present := appNow[fk]
+					if o.Del && present {
+						for _, pid := range []string{"C04", "C01"} { // the deletion is the last-writer-wins winner of everything written
+							out.Oracle = append(out.Oracle, OracleFailure{pid, "deletion-propagates", fmt.Sprintf("shadow mode: key %x was last DELETED by its only writer (instance %d) but the fleet converged to value %x", fk, wi, got), in})
+						}
+					} else if !o.Del && (!present || !bytes.Equal(got, o.Val)) {
+						out.Oracle = append(out.Oracle, OracleFailure{"C01", "lww-winner", fmt.Sprintf("shadow mode: key %x was last written as %x by its only writer (instance %d) but the fleet converged to %x (present=%v)", fk, o.Val, wi, got, present), in})
+					}
 				}
 			}
 			// and they are the live part of the merged state
